@@ -181,10 +181,12 @@ def decStrOld (s : Str) : Str :=
 
 /-- `interpret_as_list` (with the empty list read as `[]`): the text between `[` at the start and the
     last `]`, else the whole text; split at commas, items stripped -/
+def listBodyOf : Str → Str
+  | '[' :: r => (match lastIndexOf ']' r with | some i => r.take i | none => '[' :: r)
+  | s => s
+
 def decList (s : Str) : List Str :=
-  let body := match s with
-    | '[' :: r => (match lastIndexOf ']' r with | some i => r.take i | none => s)
-    | _ => s
+  let body := listBodyOf s
   if (strip body).isEmpty then [] else (splitOn ',' body).map strip
 
 def decListInt (s : Str) : Option (List Int) := (decList s).mapM parseInt
